@@ -6,6 +6,7 @@ import Driver.Err
 import Driver.Retry
 import Driver.LockTime
 import Driver.Runner
+import Driver.Zip
 
 def dispatch (line : String) : String :=
   match (line.trimAscii.toString.splitOn " ").filter (· ≠ "") with
@@ -20,6 +21,9 @@ def dispatch (line : String) : String :=
   | "stale" :: rest => Driver.LockTime.handle rest
   | "runner" :: rest => Driver.Runner.handle rest
   | "collect" :: rest => Driver.Runner.handleCollect rest
+  | "path" :: rest => Driver.Zip.handlePath rest
+  | "sanitise" :: rest => Driver.Zip.handleSanitise rest
+  | "unzip" :: rest => Driver.Zip.handleUnzip rest
   | _ => "bad-op"
 
 partial def loop (hin hout : IO.FS.Stream) : IO Unit := do
